@@ -529,4 +529,26 @@ example (s : Str) (rest : List Char) :
     lex (printStr (fun _ => true) s ++ rest) = lex (printStr (fun _ => false) s ++ rest) := by
   rw [lex_str, lex_str]
 
+/-! ## Glue ratios (finding C18-e)
+
+`Display for GlueRatio` writes `|num/den|` rounded to 2^-16 and capped at `20000.0`
+(TeX §186) — up to 1 310 720 000 sp as a scaled value, above the largest dimension. The
+line breaker produces such boxes (a last line with `\parfillskip=0pt plus 0.00005fill`).
+Before fix C18-e `from_float_str` read the number as a dimension and rejected 16384 and more;
+with the fix the whole printable range is read back. -/
+
+/-- Every glue ratio text the printer can write (and every value up to `i32::MAX`) is read
+back by `GlueRatio::from_float_str` as the value it denotes. This is the ratio domain of
+`text_round_trip` (`exprNode`: `0 ≤ ratio ≤ 2^31 - 1`). -/
+theorem glue_ratio_text_roundtrip (g : Nat) (hg : g ≤ 2147483647) :
+    parseRatio (printNoUnits (g : Int)) = some (g : Int) :=
+  parseRatio_print scaledRoundTrip g hg
+
+example : parseRatio "20000.0".toList = some 1310720000 := by decide +kernel
+/-- The list of the report: an hbox whose glue ratio prints as `20000.0` is expressible… -/
+example : exprList .H [.hbox 0 0 0 0 1310720000 .fill [.glue 0 0 3 .fill 0 .normal]] = true := by decide
+/-- …whereas the pre-fix reader computed `Scaled::new(20000, 0, pt)`, an overflow. -/
+example : scaledNew 20000 0 1 1 false = none := by decide
+example : scaledNew 16384 0 1 1 false = none ∧ scaledNew 16383 65535 1 1 false = some 1073741823 := by decide
+
 end C18
